@@ -432,6 +432,14 @@ theorem kg_simple (st : St) (r : Req) (ph : Phase)
       · exact Or.inr (Or.inl h)
       · exact Or.inr (Or.inr h)
 
+theorem kg_result {st st' : St} {r : Req} {evs : List Ev} {ph : Phase}
+    (hkg : (r.method = "keyboard-interactive" ∧ ph = kbdPhase st r) ∨ (r.method = "gssapi-with-mic" ∧ ph = gssPhase st r))
+    (hph : ph = .again st' evs ∨ ∃ p e, ph = .res st' evs p e) :
+    st' = st ∧ evs.all (kgEv st r) = true := by
+  obtain ⟨x, hx, h⟩ := kg_simple st r ph hkg
+  rcases hph with h1 | ⟨p, e, h1⟩ <;> rcases h with h | h | h <;> rw [h1] at h <;> simp at h
+  all_goals exact ⟨h.1, by rw [h.2.1]; exact hx⟩
+
 /-- `methodPhase` on the two exchange methods -/
 theorem methodPhase_kg {cfg : Cfg} {st : St} {r : Req}
     (h : r.method = "keyboard-interactive" ∨ r.method = "gssapi-with-mic") :
